@@ -18,6 +18,8 @@ Theorem C11_export_token_position : forall subject atp, exists n, ns_export_toke
 Proof. exact no_panic_export_token_position. Qed.
 Theorem C11_renaming : forall v, exists l, ns_renaming v = Ok l.
 Proof. exact no_panic_renaming. Qed.
+Theorem C11_to_subject : forall s, exists n, ns_to_subject s = Ok n.
+Proof. exact no_panic_to_subject. Qed.
 Theorem C11_clean_subject : forall s, exists r, ns_clean_subject s = Ok r.
 Proof. exact no_panic_clean_subject. Qed.
 (* lists decoded from JSON with null entries anywhere *)
@@ -53,6 +55,7 @@ Print Assumptions C11_is_contained_in_agrees.
 Print Assumptions C11_subject_validate.
 Print Assumptions C11_export_token_position.
 Print Assumptions C11_renaming.
+Print Assumptions C11_to_subject.
 Print Assumptions C11_clean_subject.
 Print Assumptions C11_entries_validate.
 Print Assumptions C11_wildcard_loop.
